@@ -8,7 +8,19 @@ import storeprop  # noqa: E402
 ID = "C03"
 THEOREMS = ["c03_dup_refused", "c03_fresh_id", "c03_by_position", "c03_position_out_of_range", "c03_by_name",
             "c03_by_id", "c03_appended_last", "c03_order_after_delete"]
-PROFILE = {"uuid_names": True,
+# nested sources (children, grandchildren) in the source lists of an array, a tag and a group, then probes of those lists
+PRELUDES = [
+    [["create", 0, "CBlocks", "B", "t", []], ["create", 1, "CSources", "s", "t", []], ["create", 2, "CSources", "c", "t", []],
+     ["create", 3, "CSources", "cc", "t", []], ["create", 1, "CDataArrays", "a", "t", [1]], ["create", 1, "CTags", "t", "t", [1]],
+     ["create", 1, "CGroups", "g", "t", []], ["append", 5, "LSources", 3], ["append", 5, "LSources", 4], ["append", 5, "LSources", 2],
+     ["append", 6, "LSources", 4], ["append", 7, "LSources", 3], ["probe_link", 5, "LSources"], ["probe_link", 6, "LSources"],
+     ["probe_link", 7, "LSources"]],
+    [["create", 0, "CBlocks", "B", "t", []], ["create", 1, "CDataArrays", "x", "t", [1]], ["create", 1, "CDataArrays", "y", "t", [2]],
+     ["create", 1, "CTags", "x", "t", [1]], ["create", 1, "CGroups", "x", "t", []], ["append", 4, "LReferences", 2],
+     ["append", 4, "LReferences", 3], ["append", 5, "LDataArrays", 3], ["append", 5, "LTags", 4], ["probe_link", 4, "LReferences"],
+     ["probe_link", 5, "LDataArrays"], ["probe_link", 5, "LTags"]],
+]
+PROFILE = {"preludes": PRELUDES, "prelude_prob": 0.3, "uuid_names": True,
            "weights": {"create": 12, "probe": 8, "probe_link": 4, "delete": 4, "append": 5, "remove": 2, "bad": 2,
                        "reopen": 0.8, "set_attr": 1, "set_link": 1, "lookup": 2}}
 RULE = ("create/delete histories in every container kind (blocks, arrays, tags, multi-tags, groups, nested sources, nested "
